@@ -127,69 +127,6 @@ func attestationGuards() []namedGuard {
 	}
 }
 
-// guardEstablishedBefore decides whether, in fn, every path to target passes the guard either directly or through a
-// helper call whose error is tested nil and whose nil returns are guarded.
-func guardEstablishedBefore(p *core.Prog, ds *core.Describer, fn *ssa.Function, target ssa.Instruction, g core.GuardSpec) (bool, []ssa.Instruction, string) {
-	isT := func(in ssa.Instruction) bool { return in == target }
-	if w := core.Unguarded(ds, fn, nil, isT, g); w == nil {
-		if core.CountGuards(ds, fn, g) > 0 {
-			return true, nil, "direct test in " + core.FnKey(fn)
-		}
-	}
-	// helpers: static calls to module functions returning error
-	var lastW []ssa.Instruction
-	for _, ci := range core.Calls(fn, func(c *ssa.CallCommon) bool {
-		f := c.StaticCallee()
-		return f != nil && f.Pkg != nil && core.IsProd(f.Pkg.Pkg.Path()) && f.Blocks != nil
-	}) {
-		call, ok := ci.(*ssa.Call)
-		if !ok {
-			continue
-		}
-		h := call.Call.StaticCallee()
-		res := h.Signature.Results()
-		errIdx := -1
-		for i := 0; i < res.Len(); i++ {
-			if core.IsErrorType(res.At(i).Type()) {
-				errIdx = i
-			}
-		}
-		if errIdx < 0 || core.CountGuards(ds, h, g) == 0 {
-			continue
-		}
-		// inside the helper: nil returns are guarded
-		bad := core.NilReturnsNotGuarded(ds, h, errIdx, g)
-		if len(bad) > 0 {
-			for _, w := range bad {
-				lastW = w
-			}
-			continue
-		}
-		// at the call site: the target is reachable only when the helper's error is nil
-		var errVal ssa.Value = call
-		if res.Len() > 1 {
-			if ex := core.ExtractOf(call, errIdx); ex != nil {
-				errVal = ex
-			}
-		}
-		w := core.Unguarded(ds, fn, call, isT, func(c core.Cond) int { return core.ErrNilSucc(c, errVal) })
-		// also the helper call must be on every path to the target
-		w0 := core.PathQuery{Fn: fn, Target: isT, Avoid: func(in ssa.Instruction) bool { return in == ssa.Instruction(call) }}.Find()
-		if w == nil && w0 == nil {
-			return true, nil, "helper " + core.FnKey(h)
-		}
-		if w != nil {
-			lastW = w
-		} else {
-			lastW = w0
-		}
-	}
-	if lastW == nil {
-		lastW = core.Unguarded(ds, fn, nil, isT, g)
-	}
-	return false, lastW, ""
-}
-
 func runC01(p *core.Prog, r *core.Report, tier string) {
 	ds := core.NewDescriber()
 	la := core.NewLockAnalysis(p)
@@ -216,27 +153,7 @@ func runC01(p *core.Prog, r *core.Report, tier string) {
 	}
 
 	// the chain of functions from the sign site up to the entry (Attest)
-	type level struct {
-		fn   *ssa.Function
-		site ssa.Instruction // the call in fn that leads to the signer
-	}
-	chain := []level{{signFn, signSite.(ssa.Instruction)}}
-	for cur := signFn; len(chain) < 4; {
-		n := p.CallGraph().Nodes[cur]
-		var callers []level
-		if n != nil {
-			for _, e := range n.In {
-				if e.Site != nil && e.Site.Common().StaticCallee() == cur && e.Caller.Func.Pkg == cur.Pkg {
-					callers = append(callers, level{e.Caller.Func, e.Site.(ssa.Instruction)})
-				}
-			}
-		}
-		if len(callers) != 1 {
-			break
-		}
-		chain = append(chain, callers[0])
-		cur = callers[0].fn
-	}
+	chain := callChain(p, signFn, signSite.(ssa.Instruction), 4)
 	entry := chain[len(chain)-1]
 	r.Tables["sign-chain"] = func() []string {
 		var s []string
@@ -544,19 +461,7 @@ func runC01(p *core.Prog, r *core.Report, tier string) {
 
 	// ---- (f) validation ⊳ sign ----
 	for _, ng := range attestationGuards() {
-		ok := false
-		var how string
-		var wit []ssa.Instruction
-		for _, l := range chain {
-			good, w, via := guardEstablishedBefore(p, ds, l.fn, l.site, ng.g)
-			if good {
-				ok, how = true, via
-				break
-			}
-			if w != nil {
-				wit = w
-			}
-		}
+		ok, wit, how := guardOnChain(p, ds, chain, ng.g)
 		r.Check(ok, "C01.f", "validation|"+ng.name, p.Pos(entry.site.Pos()), ng.what+" is established on every path to the signer ("+how+")",
 			"the signer is reachable without "+ng.what+" having been established", p.WitnessText(wit)...)
 	}
